@@ -30,7 +30,7 @@ ASSUMPTIONS = [
     'the reload clause compares constructor-level parameters that the writers store; opacities stay registered in the caches between write and reload',
 ]
 RULE = RULE + ' ' + 'Also: every stored dictionary holds a 0-d array and a non-contiguous view; native points exactly on bin edges; native bin widths and binned optical depths of the stored spectra.'
-REQUIRED = {'dict:array-0d': 0.05, 'dict:array-strided': 0.03, 'native-points-on-bin-edges': 0.03, 'part:retrieval': 0.04, 'part:dict': 0.08, 'part:spectrum': 0.08, 'part:model': 0.08}
+REQUIRED = {'native-grid-descending': 0.08, 'dict:array-0d': 0.05, 'dict:array-strided': 0.03, 'native-points-on-bin-edges': 0.03, 'part:retrieval': 0.04, 'part:dict': 0.08, 'part:spectrum': 0.08, 'part:model': 0.08}
 # coverage-guided extra (thorough tier): pure-Python taurex modules on this property's path, instrumented by atheris
 FUZZ = {'include': ['taurex.output', 'taurex.util.output', 'taurex.util.hdf5', 'taurex.util.util', 'taurex.binning'], 'runs': 8000, 'workers': 4}
 
@@ -303,6 +303,10 @@ def check_spectrum(out, c, tmp):
         with np.errstate(all='ignore'):
             d = cut(out, 'generate_spectrum_output@' + kind + sfx, b.generate_spectrum_output, res_, size)
         out.applies('self-describing')
+        missing = [k_ for k_ in ('native_wngrid', 'native_spectrum', 'native_wlgrid') if k_ not in d]
+        if missing:
+            out.fail('self-describing@missing,' + kind + sfx, 'the spectrum output lacks %s' % missing)
+            return None
         if not np.array_equal(np.asarray(d['native_wngrid']), native) or not np.array_equal(np.asarray(d['native_spectrum']), spec):
             out.fail('self-describing@native,' + kind + sfx, 'native grid / spectrum are not the model result')
         if not close(d['native_wlgrid'], 10000.0 / native, rtol=1e-15):
@@ -359,8 +363,31 @@ def check_spectrum(out, c, tmp):
                 if tot > 0 and not close(np.asarray(d['binned_spectrum'])[i], v, rtol=1e-9, atol=1e-300):
                     out.fail('binned-spectrum@reference,' + kind + sfx, 'bin %d: %r vs overlap mean %r' % (i, np.asarray(d['binned_spectrum'])[i], v))
                     break
+        return d
 
-    judge(res, '')
+    if want_tau_binned and c['nb'] % 2 == 0:
+        # a request that is refused first (a result without optical depths at a size that stores them; the caller catches the
+        # error), then the proper request on the same binner
+        try:
+            with np.errstate(all='ignore'):
+                b.generate_spectrum_output((res[0], res[1], None, None), size)
+        except Exception:
+            out.cls('refused-output-request-first')
+    d_first = judge(res, '')
+    if kind != 'native' and d_first is not None:
+        # the same result handed over in descending wavenumber order (a model on a wavelength-ordered grid): the binned
+        # spectrum and the binned optical depths are those of the ascending listing
+        resd = (np.asarray(res[0])[::-1].copy(), np.asarray(res[1])[::-1].copy(), np.asarray(res[2])[:, ::-1].copy(), res[3])
+        out.cls('native-grid-descending')
+        with np.errstate(all='ignore'):
+            dd = cut(out, 'generate_spectrum_output@' + kind + ',descending', b.generate_spectrum_output, resd, size)
+        out.applies('descending-native-grid')
+        for key in ('binned_spectrum', 'binned_tau'):
+            if key in d_first and key in dd:
+                a_, b_ = np.asarray(d_first[key], dtype=float), np.asarray(dd[key], dtype=float)
+                nn = np.isnan(a_) & np.isnan(b_) if a_.shape == b_.shape else False
+                if a_.shape != b_.shape or not close(np.where(nn, 0.0, b_), np.where(nn, 0.0, a_), rtol=1e-9, atol=1e-300):
+                    out.fail('descending-native-grid@%s,%s' % (key, kind), '%s differs between the ascending and the descending listing of the same result' % key)
     # the same binner describes a second result on another native grid of the same length (one binner serves
     # every spectrum written during a run): the stored output must describe THAT result
     out.applies('self-describing-reuse')
